@@ -417,16 +417,32 @@ Proof.
   eapply IH; [eassumption|]. eapply try_route_QI; eassumption.
 Qed.
 
+Lemma route_backlog_QI n : forall s s' e, route_backlog c s n = (s', e) -> QI s -> QI s'.
+Proof.
+  induction n as [|k IH]; intros s s' e; cbn [route_backlog].
+  { intros H; inversion H; subst. exact (fun x => x). }
+  destruct (f_q s) eqn:Eq.
+  { intros H; inversion H; subst. exact (fun x => x). }
+  unfold try_route_next. destruct (try_route c _ s None) as [s1 e1] eqn:Et.
+  destruct (len (j :: l) <=? len (f_q s1)).
+  - intros H HQ. inversion H; subst. eapply try_route_QI; eassumption.
+  - destruct (route_backlog c s1 k) as [s2 e2] eqn:Er. intros H HQ. inversion H; subst.
+    eapply IH; [eassumption|]. eapply try_route_QI; eassumption.
+Qed.
+
 Lemma resize_QI s n s' e : resize c s n = (s', e) -> QI s -> QI s'.
 Proof.
   unfold resize. destruct (n =? 0).
   { intros H; inversion H; subst. exact (fun x => x). }
   destruct (f_size s <? N.min pool_max n).
-  - intros H HQ. eapply route_queued_QI; [eassumption|].
-    pose proof (grow_QI (N.to_nat (N.min pool_max n - f_size s)) s (f_size s) HQ) as [A B]. split; assumption.
+  - intros H HQ.
+    assert (HG : QI (set_size (grow c s (f_size s) (N.to_nat (N.min pool_max n - f_size s))) (N.min pool_max n))).
+    { pose proof (grow_QI (N.to_nat (N.min pool_max n - f_size s)) s (f_size s) HQ) as [A B]. split; assumption. }
+    destruct (factory_queueing c); [eapply route_queued_QI|eapply route_backlog_QI]; eassumption.
   - destruct (N.min pool_max n <? f_size s); intros H HQ; inversion H; subst; [|exact HQ].
     pose proof (shrink_QI (N.to_nat (f_size s - N.min pool_max n)) s (N.min pool_max n) HQ) as [A B]. split; assumption.
 Qed.
+
 
 Lemma QI_nil s : QI (fst (stop_factory s)).
 Proof. split; cbn; [unfold fq_ok, disc_count, len; cbn; lia|constructor]. Qed.
@@ -678,6 +694,22 @@ Proof.
   eapply frame_trans; [eapply try_route_frame; eassumption|eapply IH; eassumption].
 Qed.
 
+Lemma route_backlog_frame c n : forall s s' e, route_backlog c s n = (s', e) -> frame s s'.
+Proof.
+  induction n as [|k IH]; intros s s' e; cbn [route_backlog].
+  { intros H; inversion H; subst. fr. }
+  destruct (f_q s) eqn:Eq; [intros H; inversion H; subst; fr|].
+  unfold try_route_next. destruct (try_route c _ s None) as [s1 e1] eqn:Et.
+  destruct (len (j :: l) <=? len (f_q s1)).
+  - intros H. inversion H; subst. eapply try_route_frame; eassumption.
+  - destruct (route_backlog c s1 k) as [s2 e2] eqn:Er. intros H. inversion H; subst.
+    eapply frame_trans; [eapply try_route_frame; eassumption|eapply IH; eassumption].
+Qed.
+
+Lemma resize_grow_frame c s1 s' e (b : bool) k1 k2 :
+  (if b then route_queued c s1 k1 else route_backlog c s1 k2) = (s', e) -> frame s1 s'.
+Proof. destruct b; [apply route_queued_frame|apply route_backlog_frame]. Qed.
+
 (* the pool is exactly what the last resize asked for, up to busy workers being retired *)
 Definition shape_ok (p : list worker) (n : N) : Prop :=
   (forall i, i < n -> exists w, find_w p i = Some w /\ w_drain w = false)
@@ -885,7 +917,7 @@ Proof.
   set (m := N.min pool_max n). destruct (N.ltb_spec (f_size s) m) as [Hlt|Hge].
   - intros H. destruct (grow_shape c (N.to_nat (m - f_size s)) s (f_size s) Hs) as (G1 & G2 & G3).
     replace (f_size s + N.of_nat (N.to_nat (m - f_size s))) with m in G1 by lia.
-    apply route_queued_frame in H. destruct H as (F1 & F2 & F3 & F4). cbn [set_size f_size f_stopped f_pool] in *.
+    apply resize_grow_frame in H. destruct H as (F1 & F2 & F3 & F4). cbn [set_size f_size f_stopped f_pool] in *.
     repeat split; [right|congruence|exact F1]. rewrite F1. eapply shape_ple; eassumption.
   - destruct (N.ltb_spec m (f_size s)) as [Hlt|Hge2]; intros H; inversion H; subst.
     + destruct (shrink_shape c m (f_size s) (N.to_nat (f_size s - m)) s m ltac:(lia) ltac:(lia)) as (G1 & G2 & G3).
@@ -1059,7 +1091,7 @@ Lemma resize_mode c s n s' e : resize c s n = (s', e) -> f_drain s' = f_drain s.
 Proof.
   unfold resize. destruct (n =? 0); [intros H; inversion H; reflexivity|].
   destruct (f_size s <? N.min pool_max n).
-  - intros H. apply route_queued_frame in H. destruct H as (_ & F2 & _). rewrite F2. cbn [set_size f_drain].
+  - intros H. apply resize_grow_frame in H. destruct H as (_ & F2 & _). rewrite F2. cbn [set_size f_drain].
     apply grow_mode.
   - destruct (N.min pool_max n <? f_size s); intros H; inversion H; subst; [|reflexivity].
     cbn [set_size f_drain]. apply shrink_mode.
@@ -1373,6 +1405,17 @@ Proof.
   rewrite hooks_app, (try_route_quiet _ _ _ _ _ _ Et), (IH _ _ _ Er). reflexivity.
 Qed.
 
+Lemma route_backlog_quiet c n : forall s s' e, route_backlog c s n = (s', e) -> hooks_of e = [].
+Proof.
+  induction n as [|k IH]; intros s s' e; cbn [route_backlog]; [intros H; inversion H; reflexivity|].
+  destruct (f_q s) eqn:Eq; [intros H; inversion H; reflexivity|].
+  unfold try_route_next. destruct (try_route c _ s None) as [s1 e1] eqn:Et.
+  destruct (len (j :: l) <=? len (f_q s1)).
+  - intros H. inversion H; subst. eapply try_route_quiet; eassumption.
+  - destruct (route_backlog c s1 k) as [s2 e2] eqn:Er. intros H. inversion H; subst.
+    rewrite hooks_app, (try_route_quiet _ _ _ _ _ _ Et), (IH _ _ _ Er). reflexivity.
+Qed.
+
 Lemma grow_stopped c k : forall s from, f_stopped (grow c s from k) = f_stopped s.
 Proof.
   induction k as [|k IH]; intros s from; cbn [grow]; [reflexivity|]. rewrite IH.
@@ -1389,8 +1432,10 @@ Lemma resize_quiet c s n s' e : resize c s n = (s', e) -> hooks_of e = [] /\ f_s
 Proof.
   unfold resize. destruct (n =? 0); [intros H; inversion H; split; reflexivity|].
   destruct (f_size s <? N.min pool_max n).
-  - intros H. pose proof (route_queued_quiet _ _ _ _ _ H) as Hq.
-    apply route_queued_frame in H. destruct H as (_ & _ & F3 & _). split; [exact Hq|].
+  - intros H.
+    assert (Hq : hooks_of e = []).
+    { destruct (factory_queueing c); [eapply route_queued_quiet|eapply route_backlog_quiet]; eassumption. }
+    apply resize_grow_frame in H. destruct H as (_ & _ & F3 & _). split; [exact Hq|].
     rewrite F3. cbn [set_size f_stopped]. apply grow_stopped.
   - destruct (N.min pool_max n <? f_size s); intros H; inversion H; subst; split; try reflexivity.
     cbn [set_size f_stopped]. apply shrink_stopped.
@@ -1764,10 +1809,22 @@ Proof.
   rewrite sp_app, (try_route_sp _ _ _ _ _ _ Et), (IH _ _ _ Er). reflexivity.
 Qed.
 
+Lemma route_backlog_sp c n : forall s s' e, route_backlog c s n = (s', e) -> sp e = [].
+Proof.
+  induction n as [|k IH]; intros s s' e; cbn [route_backlog]; [intros H; inversion H; reflexivity|].
+  destruct (f_q s) eqn:Eq; [intros H; inversion H; reflexivity|].
+  unfold try_route_next. destruct (try_route c _ s None) as [s1 e1] eqn:Et.
+  destruct (len (j :: l) <=? len (f_q s1)).
+  - intros H. inversion H; subst. eapply try_route_sp; eassumption.
+  - destruct (route_backlog c s1 k) as [s2 e2] eqn:Er. intros H. inversion H; subst.
+    rewrite sp_app, (try_route_sp _ _ _ _ _ _ Et), (IH _ _ _ Er). reflexivity.
+Qed.
+
 Lemma resize_sp c s n s' e : resize c s n = (s', e) -> sp e = [].
 Proof.
   unfold resize. destruct (n =? 0); [intros H; inversion H; reflexivity|].
-  destruct (f_size s <? N.min pool_max n); [apply route_queued_sp|].
+  destruct (f_size s <? N.min pool_max n);
+    [destruct (factory_queueing c); [apply route_queued_sp|apply route_backlog_sp]|].
   destruct (N.min pool_max n <? f_size s); intros H; inversion H; reflexivity.
 Qed.
 
